@@ -132,6 +132,32 @@ def step (line : String) : String :=
       res (.list [ofInts c, ofNats k]) ok (specUnique v c k)
         (if c.length == v.length then "all-distinct" else "dups")
     | none => bad "uniq-args"
+  | some (.list [.atom "catder", .list [pv, dv, _op], pyout]) =>
+    -- derived categorical array: parent values, derived values (numpy did the derivation), and the
+    -- implementation's (categories, codes) of the DERIVED array; codes are naturals or N (NaN)
+    match pv.toInts?, dv.toInts? with
+    | some pv', some dv' =>
+      let cats := categories pv'
+      let cds := lookupCodes cats dv'
+      let optNatsE (cs : List (Option Nat)) : Sexp :=
+        .list (cs.map fun c => match c with | some k => ofNat k | none => .atom "N")
+      let parseCodes (e : Sexp) : Option (List (Option Nat)) :=
+        e.toList?.bind (·.mapM fun x => match x with
+          | .atom "N" => some none
+          | y => y.toNat?.map some)
+      let ok := match pyout with
+        | .list [pc, pk] =>
+          match pc.toInts?, parseCodes pk with
+          | some pc', some pk' =>
+            -- inherited categories: sorted, contain every derived value; codes point at the values
+            strictSorted pc' && dv'.all (fun x => pc'.contains x) && specLookup pc' dv' pk'
+              && pk'.all (·.isSome)
+          | _, _ => false
+        | _ => false
+      res (.list [ofInts dv', ofInts cats, optNatsE cds]) ok
+        (specLookup cats dv' cds && (dv'.all fun x => pv'.contains x) == cds.all (·.isSome))
+        (if dv' == pv' then "same-order" else if dv'.length == pv'.length then "reordered" else "resized")
+    | _, _ => bad "catder-args"
   | _ => bad "unknown-family"
 
 def main : IO Unit := driverLoop step
